@@ -1,9 +1,11 @@
 /-
   C02, proof tier: the shipped tables carried into Lean (`Gen/AngularData/*.lean`, regenerated from the .npz files
   on every run) integrate every monomial of degree ≤ their advertised degree to 1e-13: one corollary per file, obtained
-  from the kernel-decided integer statement of the generated file and the soundness theorems of `Sound.lean`.
+  from the kernel-decided integer statement of the generated file and the soundness theorems of `Sound.lean`
+  (for the larger tables, whose generated file states the test slice by slice, through `Slice.lean`).
 -/
 import GridVerif.Props.C02.Sound
+import GridVerif.Props.C02.Slice
 import GridVerif.Gen.AngularData
 
 namespace GridVerif.C02
@@ -109,14 +111,66 @@ theorem maxdet_9_100_exact (a b c : ℕ) (h : a + b + c ≤ 9) :
     |quadR MaxdetD9N100.table a b c - 4 * Real.pi * ((mean a b c : ℚ) : ℝ)| ≤ 1 / ((10000000000000 : ℕ) : ℝ) + ((mean a b c : ℚ) : ℝ) * (4 / 10 ^ 20) :=
   allOk4pi_sound (by norm_num) MaxdetD9N100.exact a b c h
 
+/-! ### round 3: the tables whose kernel check is stated slice by slice (`Props/C02/Slice.lean`) -/
+
+/-- `lebedev_13_74.npz` (normalised to one; `AngularGrid` multiplies by 4π): exact to degree 13 (kernel-decided slice by slice). -/
+theorem lebedev_13_74_exact (a b c : ℕ) (h : a + b + c ≤ 13) :
+    |quadQ LebedevD13N74.table a b c - mean a b c| ≤ 1 / ((10000000000000 : ℕ) : ℚ) :=
+  allOkUnit_sound (by norm_num) (allOkUnit_of_slices LebedevD13N74.slices) a b c h
+
+/-- `lebedev_15_86.npz` (normalised to one; `AngularGrid` multiplies by 4π): exact to degree 15 (kernel-decided slice by slice). -/
+theorem lebedev_15_86_exact (a b c : ℕ) (h : a + b + c ≤ 15) :
+    |quadQ LebedevD15N86.table a b c - mean a b c| ≤ 1 / ((10000000000000 : ℕ) : ℚ) :=
+  allOkUnit_sound (by norm_num) (allOkUnit_of_slices LebedevD15N86.slices) a b c h
+
+/-- `lebedev_17_110.npz` (normalised to one; `AngularGrid` multiplies by 4π): exact to degree 17 (kernel-decided slice by slice). -/
+theorem lebedev_17_110_exact (a b c : ℕ) (h : a + b + c ≤ 17) :
+    |quadQ LebedevD17N110.table a b c - mean a b c| ≤ 1 / ((10000000000000 : ℕ) : ℚ) :=
+  allOkUnit_sound (by norm_num) (allOkUnit_of_slices LebedevD17N110.slices) a b c h
+
+/-- `spherical_13_94.npz` (normalised to one; `AngularGrid` multiplies by 4π): exact to degree 13 (kernel-decided slice by slice). -/
+theorem spherical_13_94_exact (a b c : ℕ) (h : a + b + c ≤ 13) :
+    |quadQ SphericalD13N94.table a b c - mean a b c| ≤ 1 / ((10000000000000 : ℕ) : ℚ) :=
+  allOkUnit_sound (by norm_num) (allOkUnit_of_slices SphericalD13N94.slices) a b c h
+
+/-- `maxdet_10_121.npz` (weights sum to 4π): exact to degree 10 (kernel-decided slice by slice). -/
+theorem maxdet_10_121_exact (a b c : ℕ) (h : a + b + c ≤ 10) :
+    |quadR MaxdetD10N121.table a b c - 4 * Real.pi * ((mean a b c : ℚ) : ℝ)| ≤ 1 / ((10000000000000 : ℕ) : ℝ) + ((mean a b c : ℚ) : ℝ) * (4 / 10 ^ 20) :=
+  allOk4pi_sound (by norm_num) (allOk4pi_of_slices MaxdetD10N121.slices) a b c h
+
+/-- `maxdet_11_144.npz` (weights sum to 4π): exact to degree 11 (kernel-decided slice by slice). -/
+theorem maxdet_11_144_exact (a b c : ℕ) (h : a + b + c ≤ 11) :
+    |quadR MaxdetD11N144.table a b c - 4 * Real.pi * ((mean a b c : ℚ) : ℝ)| ≤ 1 / ((10000000000000 : ℕ) : ℝ) + ((mean a b c : ℚ) : ℝ) * (4 / 10 ^ 20) :=
+  allOk4pi_sound (by norm_num) (allOk4pi_of_slices MaxdetD11N144.slices) a b c h
+
+/-- `maxdet_12_169.npz` (weights sum to 4π): exact to degree 12 (kernel-decided slice by slice). -/
+theorem maxdet_12_169_exact (a b c : ℕ) (h : a + b + c ≤ 12) :
+    |quadR MaxdetD12N169.table a b c - 4 * Real.pi * ((mean a b c : ℚ) : ℝ)| ≤ 1 / ((10000000000000 : ℕ) : ℝ) + ((mean a b c : ℚ) : ℝ) * (4 / 10 ^ 20) :=
+  allOk4pi_sound (by norm_num) (allOk4pi_of_slices MaxdetD12N169.slices) a b c h
+
+/-- `ahrens_beylkin_14_72.npz` (weights sum to 4π): exact to degree 14 (kernel-decided slice by slice). -/
+theorem ahrens_beylkin_14_72_exact (a b c : ℕ) (h : a + b + c ≤ 14) :
+    |quadR AhrensBeylkinD14N72.table a b c - 4 * Real.pi * ((mean a b c : ℚ) : ℝ)| ≤ 1 / ((10000000000000 : ℕ) : ℝ) + ((mean a b c : ℚ) : ℝ) * (4 / 10 ^ 20) :=
+  allOk4pi_sound (by norm_num) (allOk4pi_of_slices AhrensBeylkinD14N72.slices) a b c h
+
 /-- the generated list of carried tables is the list proved here (a changed selection breaks this). -/
-theorem carried_eq : carried = [("lebedev", 3, 6, false), ("lebedev", 5, 18, false), ("lebedev", 7, 26, false), ("lebedev", 9, 38, false), ("lebedev", 11, 50, false), ("spherical", 1, 2, false), ("spherical", 3, 6, false), ("spherical", 5, 12, false), ("spherical", 7, 32, false), ("spherical", 9, 48, false), ("spherical", 11, 70, false), ("maxdet", 1, 4, true), ("maxdet", 2, 9, true), ("maxdet", 3, 16, true), ("maxdet", 4, 25, true), ("maxdet", 5, 36, true), ("maxdet", 6, 49, true), ("maxdet", 7, 64, true), ("maxdet", 8, 81, true), ("maxdet", 9, 100, true)] := by decide
+theorem carried_eq : carried = [("lebedev", 3, 6, false), ("lebedev", 5, 18, false), ("lebedev", 7, 26, false), ("lebedev", 9, 38, false), ("lebedev", 11, 50, false), ("lebedev", 13, 74, false), ("lebedev", 15, 86, false), ("lebedev", 17, 110, false), ("spherical", 1, 2, false), ("spherical", 3, 6, false), ("spherical", 5, 12, false), ("spherical", 7, 32, false), ("spherical", 9, 48, false), ("spherical", 11, 70, false), ("spherical", 13, 94, false), ("maxdet", 1, 4, true), ("maxdet", 2, 9, true), ("maxdet", 3, 16, true), ("maxdet", 4, 25, true), ("maxdet", 5, 36, true), ("maxdet", 6, 49, true), ("maxdet", 7, 64, true), ("maxdet", 8, 81, true), ("maxdet", 9, 100, true), ("maxdet", 10, 121, true), ("maxdet", 11, 144, true), ("maxdet", 12, 169, true), ("ahrens_beylkin", 14, 72, true)] := by decide
 
 /-- every polynomial of degree ≤ 11 (given by its monomial coefficients) is integrated by the shipped 50-point Lebedev
 table to `1e-13` times the 1-norm of the coefficients; likewise for every carried table (`poly_bound`). -/
 theorem lebedev_11_50_poly (p : Poly) (hp : p.degLE 11) :
     |p.quad LebedevD11N50.table - p.mean| ≤ 1 / ((10000000000000 : ℕ) : ℚ) * p.norm1 :=
   poly_bound (fun a b c h => lebedev_11_50_exact a b c h) p hp
+
+/-- the same for the largest carried table, the 110-point Lebedev rule: every polynomial of degree ≤ 17. -/
+theorem lebedev_17_110_poly (p : Poly) (hp : p.degLE 17) :
+    |p.quad LebedevD17N110.table - p.mean| ≤ 1 / ((10000000000000 : ℕ) : ℚ) * p.norm1 :=
+  poly_bound (fun a b c h => lebedev_17_110_exact a b c h) p hp
+
+/-- the two organisations of the integer test decide the same statement: on a table whose direct test the kernel accepted,
+every slice of the sliced test is accepted too (`slices_of_allOkUnit`), and conversely (`allOkUnit_of_slices`). -/
+example (a : ℕ) : sliceOkUnit SphericalD11N70.table 11 10000000000000 a = true := slices_of_allOkUnit SphericalD11N70.exact a
+example : allOkUnit LebedevD13N74.table 13 10000000000000 = true := allOkUnit_of_slices LebedevD13N74.slices
 
 /-- non-vacuity / reading check: the table reproduces the surface measure, `Σ w = 1`, and `⟨x²⟩ = 1/3`, `⟨x² y²⟩ = 1/15`. -/
 example : mean 0 0 0 = 1 ∧ mean 2 0 0 = 1 / 3 ∧ mean 2 2 0 = 1 / 15 ∧ mean 4 0 0 = 1 / 5 ∧ mean 1 2 0 = 0 := by
